@@ -42,6 +42,7 @@ structure M where
   boundaries : List Boundary
   tasks : List Task
   polls : List (Nat × Nat)     -- (task, awaits left after the step): the body resumed
+  resOwner : List (Nat × Nat) := []   -- resource ↦ the scope it was created in (default: the root scope)
   deriving Repr
 
 /-- build description: what the harness creates, in creation order -/
@@ -49,8 +50,14 @@ inductive Item where
   | scope (children : List Item)          -- `create_child_scope`
   | boundary (children : List Item)       -- `create_suspense_scope`
   | task (awaits : Nat)                   -- `create_suspense_task` with that many await points
+  | resource (n : Nat)                    -- `create_isomorphic_resource`: its fetch is a task of the current scope
+  | use (n : Nat)                         -- the loading resource `n` is read here: a guard of the boundary in
+                                          -- scope, held by the RESOURCE (so it lives and dies with its owner)
 
-def M.init : M := ⟨[⟨none, true⟩], [], [], []⟩
+def M.init : M := ⟨[⟨none, true⟩], [], [], [], []⟩
+
+/-- the scope that owns resource `n` (the root scope when it was not created by an item) -/
+def M.ownerOf (m : M) (n : Nat) : Nat := ((m.resOwner.find? (·.1 == n)).map (·.2)).getD 0
 
 mutual
 /-- create the items with `cur` as current scope and `ctx` as nearest boundary -/
@@ -69,6 +76,19 @@ def buildItem (m : M) (cur : Nat) (ctx : Option Nat) : Item → M
       | some b => { m with boundaries := m.boundaries.modify b fun x => { x with remaining := x.remaining + 1 } }
       | none => m
     { m with tasks := m.tasks ++ [⟨cur, ctx, n, .pending⟩] }
+  | .resource n =>
+    -- the fetch is a suspense task spawned in (an effect of) the current scope, under the boundary in scope
+    let m := match ctx with
+      | some b => { m with boundaries := m.boundaries.modify b fun x => { x with remaining := x.remaining + 1 } }
+      | none => m
+    { m with tasks := m.tasks ++ [⟨cur, ctx, 1, .pending⟩], resOwner := m.resOwner ++ [(n, cur)] }
+  | .use n =>
+    -- the guard is stored in the resource: it is released when the resource delivers or when the scope
+    -- that owns the resource is disposed
+    let m := match ctx with
+      | some b => { m with boundaries := m.boundaries.modify b fun x => { x with remaining := x.remaining + 1 } }
+      | none => m
+    { m with tasks := m.tasks ++ [⟨m.ownerOf n, ctx, 1, .pending⟩] }
 def buildItems (m : M) (cur : Nat) (ctx : Option Nat) : List Item → M
   | [] => m
   | i :: is => buildItems (buildItem m cur ctx i) cur ctx is
